@@ -200,18 +200,26 @@ fn plant_failure(program: &mut Program, k: usize, width: u32) {
             breaks: 0,
         },
     );
-    program.stmts.push(Stmt {
-        labels: vec!["Pad_words_1".to_string()],
-        text: format!(".blkw #{}", pad),
-        words: pad,
-        breaks: 0,
-    });
-    program.stmts.push(Stmt {
+    let far = Stmt {
         labels: vec!["Far_away_1".to_string()],
         text: ".fill x0001".to_string(),
         words: 1,
         breaks: 0,
-    });
+    };
+    let padding = Stmt {
+        labels: vec!["Pad_words_1".to_string()],
+        text: format!(".blkw #{}", pad),
+        words: pad,
+        breaks: 0,
+    };
+    if (k + pad) % 3 == 0 {
+        // The target lies *behind* the reference (a label the parser has already seen)
+        program.stmts.insert(0, padding);
+        program.stmts.insert(0, far);
+    } else {
+        program.stmts.push(padding);
+        program.stmts.push(far);
+    }
 }
 
 struct Setup {
